@@ -79,23 +79,35 @@ Definition substring_orig (x : expansion) (off : Z) (len : option Z) : res (list
         end) (fun end_ =>
   subslice x (to_u64 off2) (to_u64 end_))).                             (* as usize *)
 
-(** repaired arm: negative length counts from the end; an end before the offset is an error *)
-Definition substring (x : expansion) (off : Z) (len : option Z) : res (list (list str)) :=
-  let plen := wrap64 (poly_len x) in
-  bind (if off <? 0
-        then bind (of_opt (i64_add off plen)) (fun o => Val (if o <? 0 then plen else o))
-        else Val off) (fun off1 =>
-  let off2 := Z.min off1 plen in
-  bind (match len with
-        | Some l =>
-          if l <? 0 then
-            bind (of_opt (i64_add plen l)) (fun e => if e <? off2 then Fail else Val e)
-          else
-            bind (of_opt (i64_sub plen off2)) (fun room =>
-            of_opt (i64_add off2 (Z.min l room)))
-        | None => Val plen
-        end) (fun end_ =>
-  subslice x (to_u64 off2) (to_u64 end_))).
+(** repaired arm (commit "fix: ${v:offset:length} with negative length, and character counts",
+    branch fix/c06): nothing to slice for an empty expansion; an offset outside the item gives the
+    empty slice without looking at the length; a negative length counts from the end of a string,
+    is an error for arrays and when it ends before the offset.  [positional] = the parameter is $@/$*
+    (the caller has already put $0 in front of the fields).  Unset parameters (the [undefined] flag)
+    return before any arithmetic and are not part of this model. *)
+Definition substring (x : expansion) (positional : bool) (off : Z) (len : option Z)
+  : res (list (list str)) :=
+  match fields x with
+  | [] => Val []
+  | _ =>
+    let plen := wrap64 (poly_len x) in
+    bind (if off <? 0 then of_opt (i64_add off plen) else Val off) (fun off1 =>
+    let is_array := from_array x && negb positional in
+    if (off1 <? 0) || (plen <? off1) || (is_array && (off1 =? plen))
+    then subslice x (to_u64 plen) (to_u64 plen)
+    else
+      bind (match len with
+            | Some l =>
+              if l <? 0 then
+                bind (of_opt (i64_add plen l)) (fun e =>
+                if from_array x || (e <? off1) then Fail else Val e)
+              else
+                bind (of_opt (i64_sub plen off1)) (fun room =>
+                of_opt (i64_add off1 (Z.min l room)))
+            | None => Val plen
+            end) (fun end_ =>
+      subslice x (to_u64 off1) (to_u64 end_)))
+  end.
 
 (** known class of the pinned code: a negative length *)
 Definition known_substring (len : option Z) : bool :=
